@@ -81,6 +81,8 @@ pub trait Hooks: Sync {
     fn reclaim(&self, _ptr: usize, _size: usize, _align: usize) -> bool {
         false
     }
+    /// Called after the destructor of a block taken over through `reclaim` has run.
+    fn reclaimed(&self, _ptr: usize, _size: usize, _align: usize) {}
     fn event(&self, _ev: Event) {}
 }
 
@@ -186,6 +188,7 @@ pub unsafe fn reclaim_boxed<T: seize::AsLink>(link: *mut seize::Link) {
     if hooks().reclaim(ptr as usize, size, align) {
         // the harness keeps the block: run the destructor only
         std::ptr::drop_in_place(ptr);
+        hooks().reclaimed(ptr as usize, size, align);
     } else {
         drop(Box::from_raw(ptr));
     }
